@@ -426,6 +426,18 @@ def _dispatch(run, prog, W):
                       f"{key} -> {name}({', '.join(ir.show_nl(a)[:30] for a in args)})",
                       f"a {key} model function must be wrapped in {exp} around the original callable; found {name}",
                       f"{key} -> {name}(original callable)")
+    # what is returned is the callable itself, None (no match), or a wrapper constructed in this very call
+    from .common import value_leaves
+    built = {ev.res for ev, _ in walk(s.events) if isinstance(ev, ir.Construct)}
+    returned = [x for ev, ctx in walk(s.events) if isinstance(ev, ir.Return) and not ctx.inl for x in value_leaves(ev.value)]
+    for v in returned + value_leaves(s.ret):
+        if v == p or v in built or v in (("const", None), ir.RAISES, ("raise",)):
+            continue
+        run.fail("DISPATCH", "fresh-wrapper", f"{s.path}:{s.fn.lineno}", fq, f"returns {ir.show_nl(v)[:100]}",
+                 f"validate_model_function must return the callable itself or a wrapper it has just built around it; it can "
+                 f"return {ir.show_nl(v)[:140]} -- an object kept from an earlier call (a wrapper built for another method "
+                 f"of the same model, carrying that wrapper's state)")
+        break
     run.need(len([1 for o in run.obligations if o["rule"] == "DISPATCH"]) >= 3 or run.findings, "validator dispatch arms not found")
 
 
